@@ -246,6 +246,41 @@ func init() {
 					e.fail("R5", "core.Table.Update:upsert-from-key", e.pos(upd.Pos()), "no call hands an item to the update interpreter")
 				}
 			}},
+			{ID: "R8", Desc: "the key derivation contains no lossy conversion (two different key values never render to one key string through rounding)", Run: func(e *Engine) {
+				gk := e.fn("core", "keySchema.GetKey")
+				if !e.anchor("R8", "core.keySchema.GetKey", gk == nil) {
+					return
+				}
+				n := 0
+				for g := range e.reach(gk) {
+					if e.fnRole(g) == "" {
+						continue
+					}
+					n++
+					bad := ""
+					instrs(g, func(in ssa.Instruction) {
+						switch x := in.(type) {
+						case *ssa.Call:
+							switch name := staticCalleeName(x); name {
+							case "strconv.ParseFloat", "strconv.FormatFloat", "strconv.Atoi", "strconv.ParseInt", "strings.ToLower", "strings.ToUpper", "strings.TrimSpace", "strings.Fields":
+								bad = name + " at " + e.ipos(in)
+							}
+						case *ssa.Convert:
+							if isFloat(x.Type()) || isFloat(x.X.Type()) {
+								bad = "floating-point conversion at " + e.ipos(in)
+							}
+						}
+					})
+					if bad != "" {
+						e.fail("R8", e.fname(g)+":lossless-key-rendering", e.pos(g.Pos()), "%s on the key derivation path: distinct key values can be folded into one key string (e.g. 9007199254740992 and 9007199254740993 as float64), so a write to one key overwrites another", bad)
+					} else {
+						e.ob("R8", e.fname(g)+":lossless-key-rendering", e.pos(g.Pos()), Pass, false, "no rounding, case folding or trimming on the key derivation path")
+					}
+				}
+				if n < 3 {
+					e.fail("R8", "count:R8", "-", "only %d functions on the key derivation path", n)
+				}
+			}},
 			{ID: "R7", Desc: "GetItem output derives from Data[GetKey(request key)] through copy/conversion only (T-FLOW)", Run: func(e *Engine) {
 				for _, role := range clientRoles {
 					gi := e.clientMethods(role)["GetItem"]
